@@ -167,6 +167,83 @@ func runC02(c *kernel.Ctx) {
 		}
 	}
 	w.verifyTrie()
+	w.brokenSubscriber()
+}
+
+// brokenSubscriber is the last act of a run (fault injection): the socket of one client stops
+// accepting writes (a half-dead TCP connection: the broker's writes fail, its read loop has not
+// noticed yet) while it still holds its subscriptions; then messages are published on a channel
+// that this client and others are subscribed to. Whatever the broker does with the broken
+// connection, every healthy client that holds a matching acknowledged subscription receives each
+// message exactly once (the fan-out visits subscribers in no particular order: several messages).
+func (w *c02World) brokenSubscriber() {
+	t, c := w.c.Tape, w.c
+	if len(w.clients) < 2 || !t.Chance(1, 2) {
+		return
+	}
+	victim := w.clients[t.Choose(len(w.clients))]
+	ch := w.genLevels(false, false)
+	full := w.keys[0].Key + "/" + model.Join(ch)
+	// the victim and every other client subscribe to the channel (those that already match keep what they have)
+	for _, cl := range w.clients {
+		if cl.cl.Gone || len(w.recipientsOf(ch, cl)) > 0 {
+			continue
+		}
+		cl.cl.Recv()
+		cl.cl.Send(cl.cl.Subscribe(full))
+		world.Settle()
+		cl.cl.Recv()
+		cl.subs[filterKey(ch)] = true
+	}
+	for _, cl := range w.clients {
+		cl.cl.Recv()
+	}
+	victim.cl.Conn.BreakPeerWrites()
+	c.Fault("subscriber-write-side-dead")
+	c.Logf("c%d stops accepting writes; publishes on %s follow", victim.idx, model.Join(ch))
+	pub := w.b.Attach("faultpub")
+	world.ConnectClient(c, pub, "faultpub", "", nil)
+	n := t.Range(3, 6)
+	for i := 0; i < n; i++ {
+		pub.Send(pub.Publish(full, []byte(fmt.Sprintf("after-fault-%d", i)), false, false))
+		world.Settle()
+	}
+	pub.Recv()
+	for _, cl := range w.clients {
+		if cl == victim || cl.cl.Gone {
+			continue
+		}
+		pk, err := cl.cl.Recv()
+		if err != nil {
+			c.Failf("content", "undecodable", "c%d: %v", cl.idx, err)
+		}
+		cnt := map[string]int{}
+		for _, x := range pk {
+			if p, ok := x.(*packets.PublishPacket); ok && strings.HasPrefix(string(p.Payload), "after-fault-") {
+				cnt[string(p.Payload)]++
+			}
+		}
+		for i := 0; i < n; i++ {
+			pl := fmt.Sprintf("after-fault-%d", i)
+			switch {
+			case cnt[pl] == 0:
+				c.Check("missing", "subscriber-write-fault", "c%d holds a matching subscription and its connection is healthy, but message %s published after c%d's socket stopped accepting writes never reached it (%d of %d arrived)", cl.idx, pl, victim.idx, len(cnt), n)
+			case cnt[pl] > 1:
+				c.Check("dup", "subscriber-write-fault", "c%d received %s %d times", cl.idx, pl, cnt[pl])
+			}
+		}
+	}
+}
+
+// recipientsOf: the filters of cl that match the channel.
+func (w *c02World) recipientsOf(ch []string, cl *c02Client) []string {
+	var out []string
+	for f := range cl.subs {
+		if model.Match(w.mode, model.Levels(f), ch) {
+			out = append(out, f)
+		}
+	}
+	return out
 }
 
 func (w *c02World) pickKey() *model.KeyInfo {
